@@ -192,6 +192,9 @@ class Effects:
         # optional (fi, operation node, receiver expression) -> (may hold a datetime parsed from external text / numbers,
         # provably timezone-aware); None = the datetime-range kind is not modelled (set by the rule module, like size_hook)
         self.dt_hook: t.Callable[[FuncInfo, ast.AST, ast.AST], tuple[bool, bool]] | None = None
+        # optional (fi, call, errors expression) -> the constant texts a non-constant errors handler may be (None = unknown):
+        # the handler is decided by its value, not by being spelled as a literal at the call (set by the rule module)
+        self.text_hook: t.Callable[[FuncInfo, ast.Call, ast.AST], set[str] | None] | None = None
         self.enum_classes = {c.fq for c in repo.all_classes() if any(b.fq.endswith("Enum") for b in repo.mro(c)[1:])}
 
     # -- per function facts ----------------------------------------------
@@ -204,6 +207,17 @@ class Effects:
 
         def add(node, kind, exc):
             out.append(Site(fi, node, kind, exc, norm(node)[:80]))
+
+        def handler(call: ast.Call, err: str | None, pos: int) -> str | None:
+            """the errors handler of a codec call: the constant, or - for a name / conditional expression / parameter whose
+            possible values are all known and all total - one of them; None when it may be something that raises."""
+            if err is not None or self.text_hook is None:
+                return err
+            e = astq.arg_or_kw(call, pos, "errors")
+            vals = self.text_hook(fi, call, e) if e is not None else None
+            if vals and all(v in self.handlers_ok for v in vals):
+                return sorted(vals)[0]
+            return None
 
         for n in walk_no_nested(fn):
             if isinstance(n, ast.Raise):
@@ -245,6 +259,7 @@ class Effects:
                     add(n, "enum", "ValueError")
                 elif fq in ("builtins.str", "builtins.bytes", "builtins.bytearray") and codec_call(n) is not None:
                     kind, _recv, enc, err = codec_call(n)
+                    err = handler(n, err, 2)
                     if kind == "decode":
                         if not (err in self.handlers_ok or enc in ("latin1", "latin-1", "iso-8859-1", "iso8859-1")):
                             add(n, "decode", "UnicodeError" if enc == "idna" else "UnicodeDecodeError")
@@ -258,12 +273,12 @@ class Effects:
                 elif isinstance(n.func, ast.Attribute):
                     m = n.func.attr
                     if m == "decode" and not (fq and fq.startswith("werkzeug.")):
-                        enc, err = _enc_arg(n), _err_arg(n)
+                        enc, err = _enc_arg(n), handler(n, _err_arg(n), 1)
                         total = err in self.handlers_ok or enc in ("latin1", "latin-1", "iso-8859-1", "iso8859-1")
                         if not total:
                             add(n, "decode", "UnicodeError" if enc == "idna" else "UnicodeDecodeError")
                     elif m == "encode" and not (fq and fq.startswith("werkzeug.")):
-                        enc, err = _enc_arg(n), _err_arg(n)
+                        enc, err = _enc_arg(n), handler(n, _err_arg(n), 1)
                         if enc == "idna":
                             add(n, "encode", "UnicodeError")
                         elif enc not in ("utf-8", "utf8") and err not in self.handlers_ok:
